@@ -449,11 +449,11 @@ def additional_nodes_typed(prog: Program, rep, RID: str) -> int:
             continue
 
         def rejects(fn) -> bool:
-            for i in ast.walk(fn):
-                if isinstance(i, ast.If) and any(isinstance(x, ast.Raise) and "ValueError" in norm(x) for x in ast.walk(i)) and \
-                        ("original_G" in norm(i.test) or "isinstance" in norm(i.test)):
-                    return True
-            return False
+            # `if <not a node>: raise ValueError`, or `if <is a node>: continue` followed by the raise
+            raises = [x for x in ast.walk(fn) if isinstance(x, ast.Raise) and "ValueError" in norm(x)]
+            tests = [i for i in ast.walk(fn) if isinstance(i, ast.If) and ("original_G" in norm(i.test) or "isinstance" in norm(i.test)) and
+                     (any(isinstance(x, ast.Raise) for x in ast.walk(i)) or any(isinstance(x, ast.Continue) for x in i.body))]
+            return bool(raises) and bool(tests)
         ok_ = rejects(m.node)
         for c in calls_in(m.node):
             if isinstance(c.func, ast.Attribute) and norm(c.func.value) == "self" and c.func.attr in ci.methods and c.func.attr != "get_expanded_edge":
@@ -485,11 +485,21 @@ def fill_in_uses_global_terminals(prog: Program, rep, RID: str) -> int:
     if not has_globals:
         rep.ok(RID, key, "the expansion has no global source / sink of its own", f.loc())
         return 1
-    adds = [c for c in calls_in(f.node) if isinstance(c.func, ast.Attribute) and c.func.attr == "add_edge" and len(c.args) >= 2]
+    # arcs are added by add_edge, possibly through a nested helper `def add_arc(u, v): network.add_edge(u, v); ...`
+    helpers = {fd.name for fd in ast.walk(f.node) if isinstance(fd, ast.FunctionDef) and fd is not f.node and len(fd.args.args) >= 2 and
+               any(isinstance(c, ast.Call) and isinstance(c.func, ast.Attribute) and c.func.attr == "add_edge" and len(c.args) >= 2 and
+                   [norm(a) for a in c.args[:2]] == [fd.args.args[0].arg, fd.args.args[1].arg] for c in ast.walk(fd))}
+    adds = [c for c in calls_in(f.node) if len(c.args) >= 2 and ((isinstance(c.func, ast.Attribute) and c.func.attr == "add_edge") or
+                                                                (isinstance(c.func, ast.Name) and c.func.id in helpers))]
     if not adds:
         raise AnalysisError("fill-in: arcs of the auxiliary network not found")
-    src = [c for c in adds if "global_source_id" in norm(c.args[1]) and "source" in norm(c.args[0])]
-    snk = [c for c in adds if "global_sink_id" in norm(c.args[0]) and "sink" in norm(c.args[1])]
+    from rules.common import substitute_locals as _sl
+    ldefs = local_single_defs(f.node)
+
+    def arg(c, i):
+        return norm(_sl(c.args[i], ldefs))
+    src = [c for c in adds if "global_source_id" in arg(c, 1) and "source" in norm(c.args[0])]
+    snk = [c for c in adds if "global_sink_id" in arg(c, 0) and "sink" in norm(c.args[1])]
     if src and snk:
         rep.ok(RID, key, "the super source feeds the global source and the global sink drains into the super sink", f.loc(src[0]))
     else:
